@@ -77,6 +77,8 @@ def run(ctx):
     names = list(ops)
     for i, rng in ctx.cases("chunking", ctx.n(240, 5000)):
         one(ctx, rng, xr, dask, ops, names)
+    for i, rng in ctx.cases("combined", ctx.n(60, 1500)):
+        combined(ctx, rng, xr, dask, ops)
     tr.stats()
     sys.setswitchinterval(1e-5)   # multiply GIL hand-offs between native calls
     for i, rng in ctx.cases("stress", ctx.n(32, 400)):
@@ -137,6 +139,45 @@ def one(ctx, rng, xr, dask, ops, names):
             rec.ok(name, key, sample={"chunks": str(chunks), "scheduler": sched, "workers": nw})
         else:
             rec.bad(name, key, {"op": name, "chunks": str(chunks), "scheduler": sched, "workers": nw, "diff": det}, "chunked-result-differs")
+
+
+def combined(ctx, rng, xr, dask, ops):
+    """Lazy results of *different* datasets on the same grid (in-memory and chunked) evaluated in one
+    dask computation must equal the results evaluated one by one (no graph-key collisions)."""
+    rec = ctx.rec
+    nf = int(rng.choice([5, 9, 14]))
+    f, fm = gen.freq_grid(rng, nf=nf)
+    th, dd, dmeta = gen.dir_grid(rng, nd=int(rng.choice([4, 8, 12])), full=True, exact=True)
+    lnames, lsizes = gen.lead_dims(rng, nlead=1, maxsize=3)
+    xs = []
+    for k in range(int(rng.integers(2, 4))):
+        A, _ = gen.stack_spectra(rng, f, th, lsizes, cls="multimodal")
+        x = gen.make_da(A, f, th, lnames, lsizes)
+        xs.append(x if rng.random() < 0.5 else x.chunk({lnames[0]: 1}))
+    names = [n for n in ("tp", "tp_raw", "fp", "dpm", "dpspr", "alpha", "gamma", "dp", "hs", "tm01", "dm", "ptm3") if nf >= ops[n].min_nf]
+    name = str(rng.choice(names))
+    op = ops[name]
+    aux = O.make_aux(rng, xs[0], xr)
+    key = "combined|%s|n=%d|%s" % (name, len(xs), "+".join("dask" if x.chunks else "numpy" for x in xs))
+    try:
+        lazies = [op.fn(x, aux) for x in xs]
+        single = [l.compute() if hasattr(l, "compute") else l for l in [op.fn(x, aux) for x in xs]]
+        together = dask.compute(*lazies)
+        diff = lazies[0] - lazies[1]
+        diff = diff.compute() if hasattr(diff, "compute") else diff
+    except Exception as e:
+        rec.bad("combined", key, {"raised": repr(e)[:300]}, "combined-compute-raises")
+        return
+    for k, (a, b) in enumerate(zip(single, together)):
+        ok, det = compare_op(op, a, b, False, rtol=1e-6, circ_atol=1e-3)
+        if ok is False:
+            rec.bad("combined", key, {"dataset": k, "diff": det}, "results-of-different-datasets-mixed-in-one-computation")
+            return
+    want = single[0] - single[1]
+    if not np.allclose(np.nan_to_num(np.asarray(diff.values, dtype="float64")), np.nan_to_num(np.asarray(want.values, dtype="float64")), rtol=1e-6, atol=1e-9):
+        rec.bad("combined", key, {"expression": "op(a) - op(b)", "got": diff.values, "want": want.values}, "results-of-different-datasets-mixed-in-one-computation")
+        return
+    rec.ok("combined", key)
 
 
 def stress(ctx, rng, xr, dask, tr):
